@@ -188,12 +188,13 @@ def install():
     # (a real thread): while a Sim runs real engines that scheduler is the trampoline as well
     _RealTPS = reactivex.scheduler.ThreadPoolScheduler
 
-    def _tps(*a, **k):
-        if STATE["REAL"] is not None:
-            return CT
-        return _RealTPS(*a, **k)
+    class _TPS(_RealTPS):       # still a class: modules imported later use it in annotations (`X | None`)
+        def __new__(cls, *a, **k):
+            if STATE["REAL"] is not None:
+                return CT
+            return super().__new__(cls)
 
-    reactivex.scheduler.ThreadPoolScheduler = _tps
+    reactivex.scheduler.ThreadPoolScheduler = _TPS
 
     # ground truth for final states: every call of ComponentState.finish(state), in order
     FINISH_HOOKS = []
@@ -586,6 +587,7 @@ class Sim:
         self._draining = False
         self.workers = {}          # ref -> _Worker (a finished-notification in flight)
         self.pool_errors = []
+        self.exit_log = {}         # ref -> [[script entry, exit reason the engine reported after that execution]] (real engines)
         self.finish_log = []       # [ref, state name] for every ComponentState.finish() call, in order
         self.first_final = {}      # ref -> first final state (name) the component was seen in / asked to take
         self.final_at = {}         # ref -> len(trace) when the component was first seen final
@@ -971,6 +973,7 @@ class Sim:
                             break
                         self._run_item(mine[0])
                     self.execs[r] = k + 1
+                    self.exit_log.setdefault(r, []).append([entry, e.exitReason()])
             else:
                 done = False
         elif kind in ("fin", "pm"):
